@@ -221,7 +221,7 @@ for ln in range(4):
 for ln in range(3):
     K("c12_shl_len%d" % ln, "bigint", C12P, "shl(x,n): value' = value*2^n (bits then limbs)", [BI + "shl"], strength="bounded", bound="x of %d limbs, n in [0,64) u [64,128) u [192,256)" % ln, features=BOTH_VEC, timeout=1800, tier="thorough")
 for ln in range(1, 5):
-    K("c12_hi64_bit_length_%d" % ln, "bigint", C12P + ["C06"], "hi64 / bit_length / leading_zeros on normalised vectors: top 64 bits of the value, flag == any lower bit set (all lower limbs), bit length of the value", [BI + "hi64", BI + "nonzero", BI + "bit_length", BI + "leading_zeros", BI + "rview"], strength="bounded", bound="%d limbs" % ln, features=BOTH_VEC, timeout=900, tier="quick" if ln in (2, 3) else "thorough")
+    K("c12_hi64_bit_length_%d" % ln, "bigint", C12P + ["C06"], "hi64 / bit_length / leading_zeros on normalised vectors: top 64 bits of the value, flag == any lower bit set (all lower limbs), bit length of the value", [BI + "hi64", BI + "nonzero", BI + "bit_length", BI + "leading_zeros", BI + "rview"], strength="bounded", bound="%d limbs" % ln, features=BOTH_VEC, timeout=900, tier="quick" if ln in (3, 4) else "thorough")
 K("c12_hi64_empty", "bigint", C12P, "empty vector: hi64 == (0,false), bit_length == 0", [BI + "hi64", BI + "bit_length"], features=BOTH_VEC)
 K("c12_pow_factors", "bigint", C12P, "pow(x,exp) for every exp <= 1200, small_mul/large_mul replaced by ghost recorders: every factor is an exact power of five (5^135 constant, 5^27, table 5^k) and the exponents sum to exp", [BI + "pow"], strength="capacity", bound="exp <= 1200 (the slow path needs <= 1112)", features=BOTH_VEC, zflags=("stubbing",), timeout=900)
 K("c12_bigint_pow_dispatch", "bigint", C12P, "Bigint::pow(base,exp), base in {2,5,10}: multiplies by 5^exp iff 5|base, shifts by exp iff 2|base", [BI + "Bigint::pow"], features=BOTH_VEC, zflags=("stubbing",))
@@ -273,7 +273,7 @@ X("c15_alloc_frame_nonvacuity", "static", _cg.make_runner("alloc", "c15_entry_f6
   "non-vacuity: with the alloc feature the same closure DOES contain allocator entry points (the detector can see them)", ["parse::parse_float (whole call tree)"], strength="proved")
 for t in ("f64", "f32"):
     K("c15_entry_" + t, "parse", ["C15", "C04"], "entry harness: parse_float::<%s> on 2+2 symbolic digits, every exponent: returns without panic (the same GOTO program is the one analysed for the allocation frame)" % t,
-      ["parse::parse_float"], strength="bounded", bound="2 integer + 2 fraction digits", features=["default", "compact", "nostd_compact"], timeout=1200, tier="thorough")
+      ["parse::parse_float"], strength="bounded", bound="2 integer + 2 fraction digits", features=["default"], timeout=1200, tier="thorough")
 PROPERTY_META["C15"] = dict(
     level="other",
     claim="Frame condition decided statically for ALL inputs: the call-graph closure of parse_float in Kani's GOTO program (function pointers over-approximated by type) contains no allocator entry in default / compact / no_std+compact; the same analysis finds allocator entries under --features alloc (non-vacuity).",
